@@ -7,8 +7,11 @@
        acquire ; check ; count += 1 ; release        (_lock_sh, entry)
        acquire ; count -= 1 ; del ; notify_all ; release   (_lock_sh, finally)
        acquire ; while others: wait                   (_lock_ex, up to wait / yield / raise)
-   are single transitions.  This is exactly the granularity at which the harness schedules the real
-   code (harness/props/c15.py: a virtual Condition/RLock parks the thread at every acquire / wait).
+   are single transitions.  The harness schedules the real code at this granularity (a virtual
+   Condition/RLock parks the thread at every acquire / wait) and ADDITIONALLY right after a thread has
+   released the last lock it holds: the code that follows runs as a separate "stutter" step in which
+   the model does not move and all compared state must be unchanged (Check.v, field s_stutter) -- so the
+   assumption that nothing shared is touched outside the critical sections is checked, not assumed.
 
    Representation (DESIGN.md section 6 C15): every thread carries a stack of frames (top = head), one
    frame per `with lock.lock(...)` it is inside or entering; a frame is a program counter.  Of the RLock
